@@ -183,9 +183,11 @@ def do_bundle_budget(a, budget, n0, n1, i1):
 
 
 for _b in (1, 2, 3, 4, 5, 6, 8, 10, 12, 14, 16, 18, 20, 24):
-  define(globals(), 'C07', 'bundle_reads_under_budget_%d' % _b, AV + ['n0', 'n1', 'i1'], "return do_bundle_budget([%s], %d, n0, n1, i1)" % (", ".join(AV), _b),
-       [" and ".join('-32768 <= %s <= 32767' % a for a in AV), '1 <= n0 <= %d and 1 <= n1 <= %d and 0 <= i1 <= %d' % (N, N, N - 1)],
-       tier='quick' if _b in (4, 12, 16) else 'thorough', timeout=3000, path_timeout=300, drives=DRIVES,
-       symbolic=['n0, n1, i1', 'a0..a3'],
-       bounds='bundle [Read Tag Fragmented, Read Tag Fragmented, Read Tag] with the reply budget Logix.MAX_BYTES scaled down to %d bytes: each' % _b + ' embedded reply (status 0x00/0x06, data) '
-              'equals the reply of the same request issued alone -- bundling does not shrink or grow a member\'s fragment', outside='')
+  for _n0 in (1, 2, 3, 4):
+    define(globals(), 'C07', 'bundle_reads_under_budget_%d_first%d' % (_b, _n0), AV + ['n1', 'i1'], "return do_bundle_budget([%s], %d, %d, n1, i1)" % (", ".join(AV), _b, _n0),
+       [" and ".join('-32768 <= %s <= 32767' % a for a in AV), '1 <= n1 <= %d and 0 <= i1 <= %d' % (N, N - 1)],
+       tier='quick' if (_b, _n0) in ((4, 2), (12, 1), (12, 3), (16, 2), (16, 3)) else 'thorough', timeout=3000, path_timeout=300, drives=DRIVES,
+       symbolic=['n1, i1: count and start of the second read', 'a0..a3'],
+       bounds='bundle [Read Tag Fragmented A[0] x %d, Read Tag Fragmented A[i1] x n1, Read Tag A[0-3]] with the reply budget Logix.MAX_BYTES scaled down to %d bytes: each '
+              'embedded reply (status 0x00/0x06, data) equals the reply of the same request issued alone -- bundling does not shrink or grow a member\'s fragment' % (_n0, _b),
+       outside='')
